@@ -39,7 +39,7 @@ def inject_shards(tier):
 
 def obligations(tier):
     if tier == "quick":
-        pys = [{"backend": "py_msg", "window": 6}, {"backend": "py_struct", "window": 0}]
+        pys = [{"backend": "py_msg", "window": 6, "wlen": 2}, {"backend": "py_msg", "window": 7, "wlen": 2}, {"backend": "py_struct", "window": 0, "wlen": 2}]
     else:
         pys = [{"backend": b, "window": w} for b in ("py_msg", "py_struct") for w in (0, 2, 4, 6, 7)]
     return [
